@@ -58,7 +58,7 @@ def check(constraints, label="", kind="auto", timeout_s=60, want_model=True):
     v = str(r)
     STATS.record(v, dt, label, s, kind)
     if DEBUG:
-        print("  query %-40s %-8s %6.2fs [%s]" % (label[:40], v, dt, kind), flush=True)
+        print("  query %-8s %6.2fs [%s] %s" % (v, dt, kind, label[-90:]), flush=True)
     m = None
     if v == "sat" and want_model:
         m = s.model()
@@ -169,3 +169,89 @@ def flatten_div(e, obligations):
             r = r + c if k == z3.Z3_OP_ADD else (r * c if k == z3.Z3_OP_MUL else r - c)
         return r
     return e
+
+
+def numden(e, memo=None):
+    """rational-function normal form of a real term: (numerator term, {factor id: (factor term, power)}).
+    e == numerator / prod factor^power wherever every factor is non-zero (the caller proves that).  Denominators are kept
+    as multisets of the divisor terms the program used, so sums over a common normaliser do not blow up."""
+    if memo is None:
+        memo = {}
+    k = e.get_id()
+    if k in memo:
+        return memo[k]
+
+    def scale(n, have, want):
+        for fid, (t, p) in want.items():
+            q = p - have.get(fid, (t, 0))[1]
+            for _ in range(q):
+                n = n * t
+        return n
+
+    kind = e.decl().kind() if z3.is_app(e) else None
+    if kind in (z3.Z3_OP_ADD, z3.Z3_OP_SUB) and e.num_args() >= 1:
+        parts = [numden(c, memo) for c in e.children()]
+        lcm = {}
+        for _, d in parts:
+            for fid, (t, p) in d.items():
+                if p > lcm.get(fid, (t, 0))[1]:
+                    lcm[fid] = (t, p)
+        ns = [scale(n, d, lcm) for n, d in parts]
+        r = ns[0]
+        for n in ns[1:]:
+            r = r + n if kind == z3.Z3_OP_ADD else r - n
+        out = (r, lcm)
+    elif kind == z3.Z3_OP_UMINUS:
+        n, d = numden(e.arg(0), memo)
+        out = (-n, d)
+    elif kind == z3.Z3_OP_MUL:
+        n, d = None, {}
+        for c in e.children():
+            cn, cd = numden(c, memo)
+            n = cn if n is None else n * cn
+            for fid, (t, p) in cd.items():
+                d[fid] = (t, p + d.get(fid, (t, 0))[1])
+        out = (n, d)
+    elif kind == z3.Z3_OP_DIV:
+        n1, d1 = numden(e.arg(0), memo)
+        n2, d2 = numden(e.arg(1), memo)
+        n = n1
+        d = dict(d1)
+        for fid, (t, p) in d2.items():  # dividing by n2/d2 multiplies by d2
+            for _ in range(p):
+                n = n * t
+        if z3.is_rational_value(n2):
+            n = n / n2
+        else:
+            fid = n2.get_id()
+            d[fid] = (n2, 1 + d.get(fid, (n2, 0))[1])
+        out = (n, d)
+    else:
+        out = (e, {})
+    memo[k] = out
+    return out
+
+
+def clear_denominators(claim):
+    """lhs == rhs  ->  (polynomial-style equality without divisions, list of divisor terms that must be non-zero) or None"""
+    if not (z3.is_app(claim) and claim.decl().kind() == z3.Z3_OP_EQ and claim.arg(0).sort() == z3.RealSort()):
+        return None
+    memo = {}
+    n1, d1 = numden(claim.arg(0), memo)
+    n2, d2 = numden(claim.arg(1), memo)
+    if not d1 and not d2:
+        return None
+    l, r = n1, n2
+    for fid, (t, p) in d2.items():
+        q = p - d1.get(fid, (t, 0))[1]
+        for _ in range(max(q, 0)):
+            l = l * t
+    for fid, (t, p) in d1.items():
+        q = p - d2.get(fid, (t, 0))[1]
+        for _ in range(max(q, 0)):
+            r = r * t
+    factors = {}
+    for d in (d1, d2):
+        for fid, (t, p) in d.items():
+            factors[fid] = t
+    return l == r, list(factors.values())
